@@ -503,6 +503,7 @@ func assumptionsFor(prop string) []string {
 		"A14: arithmetic on float literals and math.Sqrt of a literal are evaluated with the IEEE 754 arithmetic of the machine running the verifier",
 		"A15: with option nan-axioms the IEEE rules for NaN results of + - * / are assumed for the otherwise uninterpreted operations",
 		"A16: functions declared trusted in the contract files (assembly kernels, fftpack transforms and initialisers, mat.offset, interp.findSegment as a model of the library binary search, the mat workspace pool getFloat64s / putFloat64s / getInts / putInts as a fresh slice of the requested length, Cholesky.updateCond as modifying c.cond only, lapack Dlasq1 and Dlasq3 (goto)) are assumed to satisfy their contracts; they are listed under coverage.trusted_no_body when a checked function of this property depends on them",
+		"A17: library models: slices.Reverse is modelled exactly (in place, element k becomes the old element len-1-k); math.Pow, Log, Exp, Sin, Cos, Sinh, ... and math.Signbit are uninterpreted functions shared by code and contracts; an unexported package variable declared without initializer and never assigned or address-taken in its package holds its zero value",
 	}
 }
 
